@@ -497,6 +497,8 @@ pub mod life {
         #[kani::unwind(4)]
         fn repoll_panics_shared_send() {
             let (tx, rx) = Mpmc::<NL>::mk();
+            // both completion paths: Ok(()) with room, Err(own value) on a closed channel
+            if kani::any() { let _ = rx.close(); }
             let f = tx.send(Tag(1));
             core::mem::forget(tx);
             core::mem::forget(rx);
@@ -506,7 +508,12 @@ pub mod life {
         #[kani::unwind(4)]
         fn repoll_panics_shared_receive() {
             let (tx, rx) = Mpmc::<NL>::mk();
-            core::mem::forget(tx.try_send(Tag(1)));
+            // both completion paths: Some(value), and None on a closed and drained channel
+            let sent: bool = kani::any();
+            let closed: bool = kani::any();
+            kani::assume(sent || closed);
+            if sent { core::mem::forget(tx.try_send(Tag(1))); }
+            if closed { let _ = tx.close(); }
             let f = rx.receive();
             core::mem::forget(tx);
             core::mem::forget(rx);
@@ -516,9 +523,14 @@ pub mod life {
         #[kani::unwind(4)]
         fn repoll_panics_shared_state() {
             let (tx, rx) = State::<NL>::mk();
-            core::mem::forget(tx.send(Tag(1)));
+            let sent: bool = kani::any();
+            let closed: bool = kani::any();
+            kani::assume(sent || closed);
+            if sent { core::mem::forget(tx.send(Tag(1))); }
+            // (the shared state sender has no close(): the channel closes when the last sender handle is dropped)
+            let mut tx = core::mem::ManuallyDrop::new(tx);
+            if closed { unsafe { core::mem::ManuallyDrop::drop(&mut tx) }; }
             let f = rx.receive(crate::channel::StateId::new());
-            core::mem::forget(tx);
             core::mem::forget(rx);
             repoll_after_ready(f);
         }
